@@ -42,10 +42,16 @@
  *           operator), one reciprocal, one product, one sum is (n+3) eps/2 of that scale, so the head-room is >= 4x the proof
  *           bound; worst observed ratio over seeds 1..5 (thorough): 0.13, reported through VF_MAX.
  *
- * Genuine-defect candidates this harness is expected to report on the unchanged tree (own stable keys, not worked around):
- *   pid_fuzzy/state-not-finite/all-joint-memberships-zero   bounded product: every J_ij = 0 -> 1/0 -> NaN gains/integrator
- *   pid_neuro_inc/out-ne-documented-equation/previous-output-not-accumulated   code computes u(k) = sat(K*...), header u(k-1)+K*...
- *     (set NEURO_DOC_ACCUMULATES to 0 to make the reference follow the code instead of pid_neuro.h)
+ * Defects of liba first reported by this harness (both repaired in /repo since; the keys stay as regression keys):
+ *   pid_fuzzy/state-not-finite/all-joint-memberships-zero   bounded product: sets of e and ec fire but every J_ij = 0 -> 1/0 -> NaN
+ *     gains and integrator from then on (fix e9ff772: base gains are kept when the sum of the joint memberships is 0, which is
+ *     also what the reference expects)
+ *   pid_neuro_inc/out-ne-documented-equation/previous-output-not-accumulated   the code computed u(k) = sat(K*sum(w x)/sum|w|),
+ *     pid_neuro.h documents u(k) = u(k-1) + K*... (fix ce0fb53).  NEURO_DOC_ACCUMULATES=0 would make the reference follow the old code.
+ * Observations that are NOT judged (the headers do not determine them): with summax = 0 (or summin = 0) the strict window
+ * summin < S < summax never holds at S = 0, so the positional integrator never leaves 0; a_pid_neuro_run stores fdb(k-1)-fdb(k)
+ * in pid.var, which the next a_pid_neuro_inc uses as x_d(k-1) in the w_d update (the reference mirrors the cached field);
+ * with all three neuron weights 0 the quotient is 0/0 and A_SAT parks the output at outmin.
  */
 #define VF_PROP "C12"
 #include "vf_common.h"
